@@ -6,6 +6,7 @@
 #include <map>
 #include <sys/mman.h>
 #include <sys/resource.h>
+#include <sys/time.h>
 using namespace chaiscript;
 
 static std::vector<std::string> g_trace;
@@ -147,21 +148,24 @@ int main() {
   setrlimit(RLIMIT_AS, &rl);
   Shared *sh = static_cast<Shared *>(mmap(nullptr, sizeof(Shared), PROT_READ | PROT_WRITE, MAP_SHARED | MAP_ANONYMOUS, -1, 0));
   sh->inflight = -1;
-  std::unique_ptr<ChaiScript_Basic> chai;
+  // one engine, built before run_cases forks its batch children (they inherit it)
+  std::unique_ptr<ChaiScript_Basic> chai = vf::make_engine();
+  chai->add(fun([](const Boxed_Value &v) { g_trace.push_back(show(v)); }), "vlog");
+  chai->add(fun([](const Boxed_Value &a, const Boxed_Value &b) { g_trace.push_back("[" + show(a) + "," + show(b) + "]"); }), "vlog2");
+  chai->eval(MENU);
+  // a non-terminating prelude function is an observation SIG(27): CPU-time limit per case (immune to machine load)
+  auto cpu_limit = [](long sec) {
+    struct itimerval tv = {{0, 0}, {sec, 0}};
+    setitimer(ITIMER_PROF, &tv, nullptr);
+  };
   auto fn = [&](const std::string &line) -> std::string {
-    if (!chai) {
-      chai = vf::make_engine();
-      chai->add(fun([](const Boxed_Value &v) { g_trace.push_back(show(v)); }), "vlog");
-      chai->add(fun([](const Boxed_Value &a, const Boxed_Value &b) { g_trace.push_back("[" + show(a) + "," + show(b) + "]"); }), "vlog2");
-      chai->eval(MENU);
-    }
     auto f = vf::split(line);
     if (f.empty()) return "BADCASE";
     auto it = templates().find(f[0]);
     if (it == templates().end()) return "BADCASE unknown function";
     const int fidx = static_cast<int>(std::distance(templates().begin(), it)) % 64;
     if (sh->inflight >= 0) { sh->hangs[sh->inflight]++; sh->inflight = -1; }
-    if (sh->hangs[fidx] >= 3) return "SKIPPED(this function already timed out 3 times)";
+    if (sh->hangs[fidx] >= 2) return "SKIPPED(this function already ran out of CPU time twice)";
     std::vector<std::string> cbs, vts;
     for (size_t k = 1; k < f.size(); ++k) {
       if (f[k].empty()) continue;
@@ -190,6 +194,7 @@ int main() {
       return t + "]";
     };
     sh->inflight = fidx;
+    cpu_limit(5);
     try {
       Boxed_Value r = chai->eval(expr);
       res = "R=" + (it->second.result ? show(r) : std::string("-")) + " T=" + trace() + " IN=[";
@@ -198,9 +203,10 @@ int main() {
     } catch (...) {
       res = "ERR(" + vf::classify_current_exception() + ") T=" + trace();
     }
+    cpu_limit(0);
     sh->inflight = -1;
     chai->set_locals({});
     return res;
   };
-  return vf::run_cases(fn, true, 3);
+  return vf::run_cases(fn, true, 600);
 }
